@@ -1833,6 +1833,14 @@ func (w *WEval) atomString(t *T) string {
 	if t.V != nil {
 		s = w.term(t.V)
 	}
+	if hasKind(t, "phi") {
+		// a test of a merged value: as a function of what decided the merge
+		if g := gateTerm(t, 0); !hasKind(g, "phi") {
+			s = callOrdinal.ReplaceAllString(g.String(), "")
+			registerAtom(s, g)
+			return s
+		}
+	}
 	registerAtom(s, t)
 	return s
 }
